@@ -27,6 +27,9 @@ CLAIMED = {
  "C04": ("fault_enumeration", "4.1", "the simulator owns the reader callables and the stored bytes: four hand-built base packs are fed to five ingestion paths of the disk store and three of the memory store under simulator-chosen read chunking, with every single-bit flip (also with a recomputed trailer), byte substitutions, every truncation point, appended tails and ~45 grammar-aware attacks (counts, trailer, OFS/REF redirections incl. self/2-/3-cycles, size lies, zlib garbage, decompression bombs, deep chains, unparsable objects); after each ingestion the store is compared with its pre-state (same instance and fresh process) or every new object is re-hashed; seven kinds of stored file are damaged the same way and read back by a fresh Repo",
          "mutation families are sharded per plan: one plan covers a sixth/eighth of the offsets, a quick run many plans; wall-clock net of 5 s only counts after a 10x solo re-run; four recorded findings cover stored files that carry no read-time integrity check",
          "deterministic simulation of the stream and storage seams: exhaustive single-fault enumeration (bit/byte/truncation) over small inputs plus structured attacks, with store post-state oracle"),
+ "C16": ("exploration", "4.9", "seeded operation histories (6-30 steps) over ten names with directory/file collisions, symref chains and loops, attached/detached HEAD, loose/packed/both refs and peeled tags, covering the whole RefsContainer surface incl. import_refs, interleaved with pack_refs(all|tags), re-opening, alternating between two handles on one directory, stale *.lock fault steps and invalid names, under coarse/zero-step virtual clocks (stat-validated packed-refs cache); after every step the observable state through the same, a fresh and the other handle is compared with a map model; the dict and reftable backends run the restricted sequences",
+         "documented RefsContainer contract is the model; handles used strictly in turn; check_ref_format vs git check-ref-format and C git's listing are not decided; three recorded reftable divergences are normalised so the rest of each sequence is still checked",
+         "deterministic simulation: simfs + virtual clock, stepwise refinement of operation histories against a reference map model, two handles as alternating processes, fault steps (stale locks)"),
 }
 NA = {
  "C01": "pure function of object field values / setter order: no schedule, clock, fault or I/O seam for a simulator to own (DESIGN.md section 5)",
